@@ -75,7 +75,28 @@ def workdir():
 @st.composite
 def labels(draw):
     """ASCII label text that ends with the END keyword (no delimiter)."""
-    src = draw(st.sampled_from(["enc", "enc", "gen"]))
+    src = draw(st.sampled_from(["enc", "enc", "gen", "utf8"]))
+    if src == "utf8":
+        # a UTF-8 label with characters beyond ASCII (units like the micro sign,
+        # names of people and places in strings)
+        doc = draw(gt.documents("default", min_statements=1))
+        toks = list(doc["tokens"])
+        for i, tk in enumerate(toks):
+            if tk[1] == "end":
+                toks = toks[:i]
+                break
+        extra = draw(st.sampled_from([
+            [gt.T("note"), gt.T("=", "eq"), gt.T('"caf\u00e9 \u00b5m"', "quoted")],
+            [gt.T("unit"), gt.T("=", "eq"), gt.T("5", "word"), gt.T("<\u00b5m>", "units")],
+            [gt.T("who"), gt.T("=", "eq"), gt.T("'\u0141\u00f3d\u017a \u4e2d'", "quoted")]]))
+        k = draw(st.integers(0, 1))
+        toks = (extra + toks) if k else (toks + extra)
+        doc2 = dict(tokens=toks + [gt.T("END", "end")], expected=None, tail="")
+        t = gt.seeded_layout(doc2, "default", draw(st.integers(0, 2 ** 32)),
+                             "light").rstrip()
+        if not t.upper().endswith("END"):
+            t = "u = \"\u00b5\"\nEND"
+        return t
     if src == "enc":
         enc = draw(st.sampled_from(["PDS3", "ISIS", "ODL"]))
         case = draw(c01.cases(enc))
@@ -124,13 +145,13 @@ def load_cases(draw, maxrun):
     sep = draw(st.sampled_from(["\n", "\r\n", " ", ";", "\0", "\n", ""]))
     if sep == "" and tail:
         sep = "\n"
-    data = label.encode("ascii") + sep.encode("ascii") + tail
+    data = label.encode("utf-8") + sep.encode("ascii") + tail
     # buffer-boundary class: move the first undecodable byte to 8192*k + delta
     if draw(st.integers(0, 4)) == 0:
         k = draw(st.integers(1, 3))
         delta = draw(st.integers(-2, 2))
         target = 8192 * k + delta
-        head = label.encode("ascii") + b"\n"
+        head = label.encode("utf-8") + b"\n"
         if target > len(head):
             data = head + b" " * (target - len(head)) + b"\xff\xfe" + tail
     return dict(label=label, data=data.hex() if len(data) < 4000 else None,
@@ -301,7 +322,7 @@ def random_loads(acc, n, seed, maxrun):
         if r is not None and r[0] == "skip":
             acc.event("skipped-label")
             return
-        tail = data[len(case["label"]):]
+        tail = data[len(case["label"].encode("utf-8")):]
         nt = len(tail) > 1
         acc.case(key=repr((case["label"], tail[:64], len(tail))), nontrivial=nt,
                  sample={"label_end": case["label"][-40:],
@@ -351,6 +372,125 @@ def random_dumps(acc, n, seed):
         shutil.rmtree(workdir(), ignore_errors=True)
 
 
+STRICT_WAYS = ["path-str", "text-stream", "binary-file", "BytesIO", "loads-str",
+               "loads-bytes"]
+
+
+def _grammar(name):
+    from pvl.grammar import PVLGrammar, ODLGrammar, PDSGrammar, ISISGrammar
+    return {"PVL": PVLGrammar, "ODL": ODLGrammar, "PDS3": PDSGrammar,
+            "ISIS": ISISGrammar}[name]()
+
+
+def load_strict(gname, label, data):
+    """The same hand-overs with a strict grammar (grammar=...): what follows END may
+    even be outside that grammar's character set."""
+    d = workdir()
+    path = os.path.join(d, "strict.img")
+    with open(path, "wb") as f:
+        f.write(data)
+    try:
+        want_m = pvl.loads(label, grammar=_grammar(gname), lexer_fn=counting_lexer())
+    except BaseException as e:
+        return ("skip", f"label alone does not load: {type(e).__name__}")
+    want = nm.canon(want_m)
+    end_pos = len(label) - 3
+    try:
+        whole = data.decode("utf-8")
+    except UnicodeDecodeError:
+        whole = None
+    for way in STRICT_WAYS:
+        lf = counting_lexer()
+        kw = dict(grammar=_grammar(gname), lexer_fn=lf)
+        try:
+            with backstop(120):
+                if way == "path-str":
+                    m = pvl.load(path, **kw)
+                elif way == "text-stream":
+                    with open(path, "r", encoding="utf-8", newline="") as f:
+                        m = pvl.load(f, **kw)
+                elif way == "binary-file":
+                    with open(path, "rb") as f:
+                        m = pvl.load(f, **kw)
+                elif way == "BytesIO":
+                    m = pvl.load(io.BytesIO(data), **kw)
+                elif way == "loads-str":
+                    if whole is None:
+                        continue
+                    m = pvl.loads(whole, **kw)
+                else:
+                    m = pvl.loads(data, **kw)
+        except WallClockBackstop:
+            raise RuntimeError(f"inconclusive: backstop hit in way {way}")
+        except BudgetExceeded:
+            return (f"C09/strict-{gname}/{way}/spins", f"label={label[-80:]!r}")
+        except Exception as e:
+            return (f"C09/strict-{gname}/{way}/raises/{type(e).__name__}",
+                    f"{way} with grammar={gname}: {e!r:.200}; label ends "
+                    f"{label[-60:]!r}; tail starts "
+                    f"{data[len(label):len(label) + 40]!r}")
+        got = nm.canon(m)
+        if got != want:
+            dd = nm.diff(want, got)
+            return (f"C09/strict-{gname}/{way}/module-differs",
+                    f"{way} with grammar={gname}: at {dd[0]} label alone gives "
+                    f"{dd[1]!r:.100}, this way gives {dd[2]!r:.100}; tail starts "
+                    f"{data[len(label):len(label) + 40]!r}")
+        if lf.stats["maxpos"] > end_pos:
+            return (f"C09/strict-{gname}/{way}/token-beyond-END",
+                    f"{way} with grammar={gname}: a token starting at "
+                    f"{lf.stats['maxpos']} was requested, END is at {end_pos}")
+    return None
+
+
+@st.composite
+def strict_cases(draw, maxrun):
+    gname = draw(st.sampled_from(["PVL", "ODL", "PDS3", "ISIS"]))
+    label = draw(labels())
+    # what may stand directly after END without being part of the word: a character
+    # outside the grammar's character set
+    foreign = [b"\x00", b"\x00\x00\x00", b"\x01x", b"\x7f"] \
+        if gname in ("PVL", "ISIS") else ["\u00e9".encode(), "\u00b5m".encode(),
+                                         "\u2028".encode()]
+    glued = draw(st.integers(0, 2)) == 0
+    if glued:
+        tail = draw(st.sampled_from(foreign)) + draw(tails(maxrun))
+        sep = ""
+    else:
+        tail = draw(st.one_of(st.sampled_from(foreign), tails(maxrun)))
+        sep = draw(st.sampled_from(["\n", "\r\n", " ", ";", "\n"]))
+    data = label.encode("utf-8") + sep.encode("ascii") + tail
+    return dict(grammar=gname, label=label, _data=data, glued=glued)
+
+
+def random_strict_loads(acc, n, seed, maxrun):
+    @hseed(seed)
+    @settings(max_examples=n, database=None, deadline=None,
+              phases=[Phase.generate], suppress_health_check=list(HealthCheck))
+    @given(strict_cases(maxrun))
+    def body(case):
+        if acc.expired():
+            acc.notes["budget_exhausted"] = 1
+            return
+        data = case["_data"]
+        r = load_strict(case["grammar"], case["label"], data)
+        if r is not None and r[0] == "skip":
+            acc.event(f"strict:{case['grammar']}:label-not-in-dialect")
+            return
+        tail = data[len(case["label"].encode("utf-8")):]
+        acc.event(f"strict:{case['grammar']}:" + ("glued" if case["glued"] else "sep"))
+        acc.case(key=repr((case["grammar"], case["label"], tail[:64], len(tail))),
+                 nontrivial=len(tail) > 1, n=len(STRICT_WAYS))
+        if r is not None:
+            acc.fail(r[0], dict(kind="strict", grammar=case["grammar"],
+                                label=case["label"], data=data[:200000].hex()), r[1])
+
+    try:
+        body()
+    finally:
+        shutil.rmtree(workdir(), ignore_errors=True)
+
+
 def shards(tier, seed):
     n = 160 if tier == "quick" else 1200
     maxrun = 40000 if tier == "quick" else 1000000
@@ -358,11 +498,17 @@ def shards(tier, seed):
            for j in range(12)]
     out += [("random_dumps", dict(n=n * 2, seed=seed * 1000 + 50 + j))
             for j in range(4)]
+    out += [("random_strict_loads", dict(n=n, seed=seed * 1000 + 70 + j,
+                                         maxrun=min(maxrun, 100000)))
+            for j in range(4)]
     return out
 
 
 def replay(case):
     try:
+        if case["kind"] == "strict":
+            r = load_strict(case["grammar"], case["label"], bytes.fromhex(case["data"]))
+            return None if (r is None or r[0] == "skip") else r
         if case["kind"] == "load":
             r = load_all_ways(case["label"], bytes.fromhex(case["data"]))
             return None if (r is None or r[0] == "skip") else r
